@@ -27,7 +27,9 @@ VARIANTS = {
     'plain':   (['-O2', '-g1', '-fopenmp', '-DHAVE_OPENMP', '-DKALIGN_VERIF'], ['-O2', '-g1', '-DKALIGN_VERIF'], [], []),
     'asan':    (['-O1', '-g1', '-fopenmp', '-DHAVE_OPENMP', '-DKALIGN_VERIF', '-fsanitize=address,undefined',
                  '-fno-sanitize-recover=undefined', '-fno-omit-frame-pointer'],
-                ['-O1', '-g1', '-DKALIGN_VERIF', '-fsanitize=address', '-fno-omit-frame-pointer'],
+                # simulator sources are NOT instrumented: frames of a fiber that ends (it never unwinds) would leave
+                # poisoned redzones on pooled stacks; the fiber-switch annotations are still compiled in
+                ['-O1', '-g1', '-DKALIGN_VERIF', '-DSIM_ASAN_BUILD', '-fno-omit-frame-pointer'],
                 ['-fsanitize=address,undefined'], []),
     'preempt': (['-O2', '-g1', '-fopenmp', '-DHAVE_OPENMP', '-DKALIGN_VERIF', '-fsanitize=thread'],
                 ['-O2', '-g1', '-DKALIGN_VERIF'], [], ['tsanhooks.c']),
